@@ -190,7 +190,7 @@ def run(rep, tier, seed, model_ok=True, effort=1):
             meta = [a for a in ATOMS if not a.isalnum() or a in "a0"]
             lits += ["".join(t) for t in itertools.product(meta, repeat=3)]
     rep.exhaustive = True
-    for _ in range((400 if tier == "quick" else 6000) * effort):
+    for _ in range((400 if tier == "quick" else 40000) * effort):
         n = r.choice([3, 4, 5, 8, 13, 21, 40])
         lits.append("".join(r.choice(ATOMS if r.random() < 0.5 else list("|.+*?(){}-^$\\ ab1") + ["\\[", "\\]"]) for _ in range(n)))
     comp_items, comp_meta, search_items, search_meta = [], [], [], []
@@ -242,7 +242,7 @@ def run(rep, tier, seed, model_ok=True, effort=1):
     # literals in front of a real placeholder through `bumpver update` (TOML config -> normalisation -> compile -> line matcher -> rewrite):
     # the line carrying the literal text is rewritten, a near-miss line stays as it is
     from . import project
-    nupd = (25 if tier == "quick" else 400) * effort
+    nupd = (25 if tier == "quick" else 1500) * effort
     fixed = [(l_, c_) for l_ in ("100%", "a%20b", "50%%", "x|y", "(c)", "a.b*") for c_ in (False, True)]
     for k_ in range(nupd + len(fixed)):
         if k_ < len(fixed):
